@@ -91,6 +91,7 @@ class C05(PoolScenario):
     wall_caps = {"quick": 110, "thorough": 1500}
     ops = {"new": 1, "fill": 10, "fillnumpy": 6, "add": 3, "iadd": 2, "mul": 2, "copy": 1, "zero": 0.5, "ship": 2, "iadd_many": 0.25}
     odd_row_weights = 0.08
+    fill_reloaded_too = True
     spec_opts = {"count_same_transform": 0.1}
     rule = ("one run = one operation history over a pool of aggregators owned by three tasks (fill, fill.numpy with "
             "seeded batches / weight forms / containers, +, +=, *, copy, JSON / file / pickle round trips), in the "
@@ -114,7 +115,13 @@ class C05(PoolScenario):
             o, writes = self.apply(w, st, si)
             op = st["op"]
             if o is not None:
-                if op in ("fill", "fillnumpy"):
+                if op in ("fill", "fillnumpy") and not o.ok and not w.meta.get(st["obj"], {}).get("mut", True):
+                    # a fill of something that holds bins adopted from a reload: "immutable container" is a legitimate answer, and
+                    # the target may be half-filled now (outside every guarantee) - it leaves the pool; everybody else stays watched
+                    w.bump("probe_fill_of_reload_derived_refused")
+                    w.heap.pop(st["obj"], None)
+                    w.meta.pop(st["obj"], None)
+                elif op in ("fill", "fillnumpy"):
                     self.lib(o, op, si)
                     nfill += 1
                     self._probe(w, st)
